@@ -717,7 +717,7 @@ def gen_dyadic_signal(rng, min_len=3, max_len=60):
 
 
 def generate_c03(rng, tier):
-    kind = rng.choice(["dup", "mid", "mid", "dupmid", "nan", "neg", "affine", "container"])
+    kind = rng.choice(["dup", "mid", "mid", "dupmid", "nan", "neg", "affine", "container", "samevalues"])
     sig = gen_dyadic_signal(rng, min_len=2 if kind != "nan" else 3)
     n = len(sig)
     tw = {"kind": kind}
@@ -772,6 +772,7 @@ def generate_c03(rng, tier):
         # survive shrinking); the relation must hold however the twin is fed
         tr["twin_cuts"] = sorted(rng.random() for _ in range(rng.choice([1, 1, 2, 3, 6])))
         tr["reuse_buffer"] = rng.random() < 0.3
+    tr["final_flush"] = rng.random() < 0.2      # both replicas end with flush=True
     return tr
 
 
@@ -873,6 +874,10 @@ def execute_c03(trace):
     elif kind == "container":
         twin_in = _series_for(sig, tw)
         out.count("twin:container:" + tw["index"])
+    elif kind == "samevalues":
+        # an element-wise equal signal (x + 0.0 turns every -0.0 into +0.0): a signal is its values
+        twin_in = np.array(sig, dtype=np.float64) + 0.0
+        out.count("twin:samevalues")
     else:
         raise ValueError(kind)
 
@@ -880,7 +885,8 @@ def execute_c03(trace):
         rec = "full" if det != "fkm" else "value"
         out.steps += 2
         try:
-            _, o = one_piece(det, rec, sig)
+            ff = bool(trace.get("final_flush"))
+            _, o = one_piece(det, rec, sig, flush=ff)
             d2 = _mk(det, rec)
             with warnings.catch_warnings(record=True) as wl:
                 warnings.simplefilter("always")
@@ -894,14 +900,17 @@ def execute_c03(trace):
                         out.count("probe:nan_first_sample_of_a_chunk")
                 bounds = [0] + cuts + [m]
                 for a_, b_ in zip(bounds[:-1], bounds[1:]):
+                    fl = ff and b_ == m
                     if isinstance(twin_in, pd.Series):
-                        _feed(d2, twin_in.iloc[a_:b_])
+                        _feed(d2, twin_in.iloc[a_:b_], fl)
                     elif trace.get("reuse_buffer") and cuts:
                         buf = np.array(twin_in[a_:b_], dtype=np.float64)      # the reader's block buffer ...
-                        _feed(d2, buf)
+                        _feed(d2, buf, fl)
                         buf[:] = 1e30                                          # ... is refilled after the call
                     else:
-                        _feed(d2, twin_in[a_:b_])
+                        _feed(d2, twin_in[a_:b_], fl)
+                if ff:
+                    out.count("probe:final_flush")
             o2 = observe(d2, det, rec)
         except RealCodeError as e:
             out.violate("exception", "%s/%s/%s" % (kind, det, e.where), {"type": e.exc_type, "msg": e.msg})
@@ -1096,7 +1105,7 @@ def describe(prop):
             "assumptions": ["signals are dyadic rationals so that affine maps and interpolated samples are exact", "the reference replica is fed in one piece; in 40% of runs the twin is fed in seeded chunks (violations then carry the component '<detector>:chunked')",
                             "a duplicate is inserted after its original; an intermediate sample lies in [left, right) so the plateau-first-sample convention is unambiguous",
                             "neg/affine/container are twin configurations, not faults"],
-            "required_probes": ["fault:dup", "fault:mid", "fault:nan", "twin:neg", "twin:affine", "twin:container:string", "twin:container:datetime",
+            "required_probes": ["twin:samevalues", "probe:final_flush", "fault:dup", "fault:mid", "fault:nan", "twin:neg", "twin:affine", "twin:container:string", "twin:container:datetime",
                                 "probe:twin_delivered_in_chunks", "probe:nan_last_sample_of_a_chunk"]}
 
 
